@@ -861,6 +861,63 @@ func checkPagePlumbing(w *core.World, r *core.Report, unit *groupingUnit, rule s
 		r.Check(hit == nil && ncall > 0, rule, "render.(*Page).Reset: the sizer is reset whenever there is one", rs.Pos(), "every return passes Sizer.Reset or the sizer == nil edge",
 			"page cursors of the previous node can survive a reset (for instance after a menu-sink node, which sets no sink symbol on the page): the next paged node is cut at the old offsets: "+w.PathString(path))
 	}
+	// (g) byte cursors are not narrowed (C08 R6 for the renderer): a cursor that wraps sends a later
+	// page back to early rows
+	{
+		var rf []*ssa.Function
+		for _, fn := range w.FuncsIn("render") {
+			if len(fn.Blocks) > 0 {
+				rf = append(rf, fn)
+			}
+		}
+		checkNarrowing(w, r, rule, rf, "a page cursor, page size or count wraps in the renderer: pages beyond the wrap show early rows again and the rows behind it are never shown")
+	}
+	// (h) a browse past the last page goes to the catch node, nowhere else
+	if vr := w.Func("vm", "(*Vm).Render"); vr != nil {
+		moveOp, _ := constOf(w, r, "vm", "MOVE")
+		var region []*ssa.BasicBlock
+		for _, in := range allInstrs(vr) {
+			ta, ok := in.(*ssa.TypeAssert)
+			if !ok || !ta.CommaOk || !strings.HasSuffix(core.TypeName(ta.AssertedType), "render.BrowseError") {
+				continue
+			}
+			if refs := ta.Referrers(); refs != nil {
+				for _, u := range *refs {
+					if ex, ok := u.(*ssa.Extract); ok && ex.Index == 1 {
+						for _, e := range core.EdgesWhere(ex, true) {
+							region = append(region, dominatedRegion(e.To())...)
+						}
+					}
+				}
+			}
+		}
+		nline, bad := 0, ""
+		var badPos token.Pos
+		for _, b := range region {
+			for _, in := range b.Instrs {
+				c, ok := in.(ssa.CallInstruction)
+				if !ok {
+					continue
+				}
+				builds := core.IsCallTo(c, "vm.NewLine")
+				if g := core.StaticCallee(c); !builds && g != nil && core.PkgOf(g) == "vm" && len(core.CallsTo(g, "vm.NewLine")) > 0 && g.Signature.Results().Len() == 1 && g.Signature.Recv() == nil {
+					builds = true
+				}
+				if !builds {
+					continue
+				}
+				nline++
+				if !isCatchLineProducer(c, moveOp) {
+					bad = "the instruction built at " + w.Pos(c.Pos()) + " is not MOVE _catch"
+					badPos = c.Pos()
+				}
+			}
+		}
+		if len(region) > 0 {
+			r.Check(bad == "" && nline > 0, rule, "vm.(*Vm).Render: a browse error leads to the catch node only", badPos, fmt.Sprintf("%d instruction(s) built in the BrowseError branch, all MOVE _catch", nline),
+				"a page index beyond the last page is answered by something other than the catch node (for instance a lateral move back): content is repeated without an error instead of the past-the-end error the property requires: "+bad)
+		}
+	}
 	// (e) Vm.Render renders the index State.Where reports
 	if vr := anchor(w, r, "vm", "(*Vm).Render"); vr != nil {
 		n, okAll := 0, true
